@@ -26,6 +26,8 @@ def step_job(ctx, prefix, op, kinds, oracle=(), cap=3, nsteps=1, op2=None, extra
     for i, k in enumerate(kinds):
         defs.append('K%d=%d' % (i, KIND[k]))
     defs += ['ORACLE_%s=1' % o for o in oracle] + list(extra_defs)
+    if any(k == 'ARRM' for k in kinds):
+        mem = max(mem, 14)
     name = '%s.%s%s.%s' % (prefix, op[2:].lower(), ('+' + op2[2:].lower()) if op2 else '', '_'.join(k.lower() for k in kinds) or 'none') + (('.' + tag) if tag else '')
     # value kinds that cannot occur in this job: their release code is cut to `assert(false); assume(false)` bodies, so the
     # solver PROVES it unreachable instead of symex unfolding it under every infeasible type-tag guess
